@@ -58,6 +58,11 @@ FAMILY = {
 ALWAYS = ["X02.level", "X02.width_restored", "X02.append_only", "X02.no_exception"]
 
 
+# the wrapping operators recurse once per produced line (and TLC's evaluator nests deeply under each level):
+# give TLC's threads a deep stack instead of relying on the default
+DEEP = {"JDK_JAVA_OPTIONS": "-Xss128m"}  # read by the launcher: also sizes the main thread, where TLC evaluates the initial states
+
+
 def graph_config(tier: str, which: str) -> dict[str, Any]:
     """Bounded alphabets of one Writer.tla run."""
     if which == "frontier":  # every (level, partial line, flag) x every call of both surfaces
@@ -66,7 +71,8 @@ def graph_config(tier: str, which: str) -> dict[str, Any]:
             "cols": [0, 3, 12], "sigs": SIGS, "levels": [0, 1, 2], "curs": ["", "x", "p: ", "  "], "pre": ["zz"], "lawdepth": 1, "mw0": 14, "maxcalls": 1,
         }  # fmt: skip
         if tier == "thorough":
-            c.update(widths=[6, 9, 10, 14], levels=[0, 1, 2, 3], curs=["", "x", "p: ", "  ", "    k", "a-"], cols=[0, 1, 3, 12])
+            c.update(widths=[6, 9, 10, 14], levels=[0, 1, 2, 3], curs=["", "x", "p: ", "  ", "    k", "a-"], cols=[0, 1, 3, 12],
+                     texts=TEXTS + ["a~b", "x ", "#"], blocks=BLOCKS + ["|p", "a|b|", "  ", "a~|~b"], wraps=WRAPS + ["aaaa bbbb cccc dddd", "a  b", "~x y", "aaaaaaaaaaaaaaaaaaaaaaaa"])
         return c
     # sequences of CodeWriter calls from new writers (what the emitters do)
     return {
@@ -99,7 +105,7 @@ def mc_cfg(c: dict[str, Any]) -> str:
 
 def design(chk: Check, which: str) -> list[dict]:
     c = graph_config(chk.tier, which)
-    r = run_tlc(chk.scratch, "MC_Writer", mc_cfg(c), files={"MC_Writer.tla": mc_module(c)}, workers=4, coverage=True, timeout=900, allow_violation=True)
+    r = run_tlc(chk.scratch, "MC_Writer", mc_cfg(c), files={"MC_Writer.tla": mc_module(c)}, workers=4, coverage=True, timeout=900, allow_violation=True, env=DEEP)
     chk.add_tlc(f"Writer[{which}]", r)
     if r.violated:
         # the specification contradicts itself: a statement does not hold of the operators that give the calls their meaning
@@ -135,7 +141,7 @@ def gen_paths(chk: Check) -> list[dict]:
     mod = f"---- MODULE MC_Gen_WriterPaths ----\nEXTENDS Gen_WriterPaths\nMCCalls == {{{recs}}}\n====\n"
     maxlen = 4 if chk.tier == "thorough" else 3
     cfg = f"SPECIFICATION Spec\nCONSTANTS\n PathCalls <- MCCalls\n MaxLen = {maxlen}\n Mw0 = 12\nINVARIANT LevelNonNegative\nCHECK_DEADLOCK FALSE\n"
-    r = run_tlc(chk.scratch, "MC_Gen_WriterPaths", cfg, files={"MC_Gen_WriterPaths.tla": mod}, workers=4, timeout=600)
+    r = run_tlc(chk.scratch, "MC_Gen_WriterPaths", cfg, files={"MC_Gen_WriterPaths.tla": mod}, workers=4, timeout=600, env=DEEP)
     chk.add_tlc("Gen_WriterPaths", r)
     sc = r.printed.get("SCEN", [])
     chk.require(len(sc) == len(calls) ** maxlen, f"Gen_WriterPaths emitted {len(sc)} sequences, expected {len(calls) ** maxlen}")
@@ -153,7 +159,7 @@ def judge(chk: Check, records: list[dict], label: str) -> dict[str, dict]:
     with tf.open("w") as f:
         for rec in records:
             f.write(json.dumps(rec) + "\n")
-    r = run_tlc(chk.scratch, "Trace_Writer", "SPECIFICATION Spec\nCHECK_DEADLOCK FALSE\n", workers=8, env={"TRACE_FILE": str(tf)}, timeout=900)
+    r = run_tlc(chk.scratch, "Trace_Writer", "SPECIFICATION Spec\nCHECK_DEADLOCK FALSE\n", workers=8, env={"TRACE_FILE": str(tf), **DEEP}, timeout=900)
     chk.add_tlc(f"Trace_Writer[{label}]", r)
     vs = r.printed.get("VERDICT", [])
     chk.require(len(vs) == len(records), f"monitor produced {len(vs)} verdicts for {len(records)} records")
@@ -197,7 +203,7 @@ def writer_layer(chk: Check) -> None:
     paths = gen_paths(chk)
     jobs = [{"id": f"e{i}", "kind": "edges", "recs": ch} for i, ch in enumerate(chunks(edges, 400))]
     jobs += [{"id": f"q{i}", "kind": "paths", "paths": ch} for i, ch in enumerate(chunks(paths, 200))]
-    res = core.parallel_py(chk.scratch, "harness.w_writer", jobs, nproc=8)
+    res = core.parallel_py(chk.scratch, "harness.w_writer", jobs, nproc=8, timeout=600)
     records = [rec for r in res for rec in r["out"]]
     verdicts = judge(chk, records, "edges+sequences")
     stats = account(chk, records, verdicts, {p["id"]: p for p in paths})
@@ -213,17 +219,70 @@ def writer_layer(chk: Check) -> None:
         chk.sample({"kind": "sequence", "calls": [c["op"] for c in paths[len(paths) // 3]["calls"]], "denotes": paths[len(paths) // 3]["code"]})
 
 
+RENDER_CLAUSES = {
+    "dataclass": ["X02.render_parses", "X02.render_exports", "X02.render_header", "X02.render_fields", "X02.render_docstring", "X02.render_doc_words", "X02.render_comments", "X02.render_meta", "X02.render_body", "X02.render_trailing_blanks"],
+    "enum": ["X02.render_parses", "X02.render_exports", "X02.render_header", "X02.render_members", "X02.render_docstring", "X02.render_doc_words", "X02.render_trailing_blanks"],
+    "alias": ["X02.render_parses", "X02.render_exports", "X02.render_alias", "X02.render_docstring", "X02.render_trailing_blanks"],
+    "class": ["X02.render_parses", "X02.render_header", "X02.render_docstring", "X02.render_body", "X02.render_trailing_blanks"],
+}  # fmt: skip
+
+
+def judge_render(chk: Check, res: list[dict], label: str) -> None:
+    d = chk.scratch.sub("render")
+    tf = d / "render.ndjson"
+    with tf.open("w") as f:
+        for r in res:
+            f.write(json.dumps({"id": r["id"], "in": r["in"], "out": r["out"]}) + "\n")
+    m = run_tlc(chk.scratch, "Trace_RenderAst", "SPECIFICATION Spec\nCHECK_DEADLOCK FALSE\n", workers=4, env={"TRACE_FILE": str(tf), **DEEP}, timeout=600)
+    chk.add_tlc(f"Trace_RenderAst[{label}]", m)
+    vs = {v["id"]: v for v in m.printed.get("VERDICT", [])}
+    chk.require(len(vs) == len(res), f"render monitor produced {len(vs)} verdicts for {len(res)} records")
+    chk.cov["traces_validated_against_impl"] += len(res)
+    for r in res:
+        v = vs[r["id"]]
+        chk.count()
+        chk.nontrivial({"render": r["in"]})
+        for cl in RENDER_CLAUSES[r["in"]["kind"]]:
+            chk.clause(cl)
+        if v["clause"] != "ok":
+            chk.fail(v["clause"], v["locus"], {"render": r["in"]}, (r["out"]["err"] + "\n" + r["code"])[:700])
+
+
 def render_layer(chk: Check) -> None:
-    pass
+    rich = chk.tier == "thorough"
+    cfg = f"SPECIFICATION Spec\nCONSTANTS\n MaxFields = {3 if rich else 2}\n Rich = {tla(rich)}\nCHECK_DEADLOCK FALSE\n"
+    g = run_tlc(chk.scratch, "Gen_RenderFamily", cfg, workers=4, timeout=600, env=DEEP)
+    chk.add_tlc("Gen_RenderFamily", g)
+    sc = sorted(g.printed.get("SCEN", []), key=lambda s: json.dumps(s, sort_keys=True))
+    kinds = Counter(s["kind"] for s in sc)
+    chk.require(all(kinds[k] > 10 for k in RENDER_CLAUSES), f"Gen_RenderFamily emitted too few constructs: {dict(kinds)}")
+    jobs = [{"id": f"r{i}", "in": s} for i, s in enumerate(sc)]
+    res = core.parallel_py(chk.scratch, "harness.w_render", jobs, nproc=4, timeout=600)
+    judge_render(chk, res, "family")
+    chk.cov["constructs_rendered"] = dict(kinds)
+    chk.sample({"kind": "render", "in": sc[len(sc) // 2]})
 
 
 def render_replay(chk: Check, sc: dict) -> None:
-    pass
+    res = core.parallel_py(chk.scratch, "harness.w_render", [{"id": "r0", "in": sc["render"]}], nproc=1)
+    judge_render(chk, res, "replay")
+
+
+def has_unlisted_failure(chk: Check) -> bool:
+    listed = [f for f in core.load_findings() if f.get("property") == chk.prop]
+    return any(not any(core._match(e, f["clause"], f["locus"]) for e in listed) for f in chk.fails)
 
 
 def run(chk: Check) -> None:
     writer_layer(chk)
-    render_layer(chk)
+    try:
+        render_layer(chk)
+    except core.MachineryError as e:
+        # the renderer sits on top of the writers: when the writer layer has already found an unlisted violation, a renderer
+        # that cannot even be driven (runaway output, worker killed) must not turn the verdict into a machinery failure
+        if not has_unlisted_failure(chk):
+            raise
+        chk.note_drift(f"renderer layer not evaluated: {str(e)[:200]}")
     chk.cov["rule"] = (
         "Writer.tla: every (level, partial line, just-newlined flag) frontier x every public method call of the bounded alphabets "
         "(texts: empty / plain / leading+trailing blanks / blank-only / multi-line / tab / U+2028; widths around the column) + every call "
